@@ -26,10 +26,10 @@ Innermost(chain) == IF chain = <<>> THEN NoPat
                     ELSE IF chain[Len(chain)].k # "none" THEN chain[Len(chain)]
                     ELSE Innermost(SubSeq(chain, 1, Len(chain) - 1))
 
-\* reference program:  mod M { opaque T; impl T { m1; m2 }   opaque U; impl U { u1 } }
-\* patterns may sit on M, on T, on the impl block of T and on m1
+\* reference program:  mod M { opaque T; impl T { m1; m2 }  impl T { m3 }   opaque U; impl U { u1 } }
+\* patterns may sit on M, on T, on the first impl block of T and on m1
 VARIABLES pm, pt, pi, pme,    \* the four patterns
-          dis,                \* an optional backend attribute: [k: "none" | "disable_m2" | "disable_T" | "rename_T", b: backend]
+          dis,                \* an optional backend attribute: [k: "none" | "disable_m1" | "disable_m2" | "disable_i" | "disable_T" | "rename_T", b: backend]
           stage
 vars == <<pm, pt, pi, pme, dis, stage>>
 
@@ -38,12 +38,16 @@ MethodSym(t, m, chain) == ApplyPat(Innermost(chain), t \o "_" \o m)
 DtorSym(t, chain) == ApplyPat(Innermost(chain), t \o "_destroy")
 Exported == [ T_m1 |-> MethodSym("T", "m1", <<pm, pi, pme>>),
               T_m2 |-> MethodSym("T", "m2", <<pm, pi>>),
+              T_m3 |-> MethodSym("T", "m3", <<pm>>),
               T_destroy |-> DtorSym("T", <<pm, pt>>),
               U_u1 |-> MethodSym("U", "u1", <<pm>>),
               U_destroy |-> DtorSym("U", <<pm>>) ]
-Items == {"T_m1", "T_m2", "T_destroy", "U_u1", "U_destroy"}
+Items == {"T_m1", "T_m2", "T_m3", "T_destroy", "U_u1", "U_destroy"}
 \* which items a backend's bindings contain
+\* disabling one method (or one impl block) removes exactly that: what is declared after it stays
 EnabledFor(b) == CASE dis.k = "disable_m2" /\ dis.b \in Names[b] -> Items \ {"T_m2"}
+                   [] dis.k = "disable_m1" /\ dis.b \in Names[b] -> Items \ {"T_m1"}
+                   [] dis.k = "disable_i" /\ dis.b \in Names[b] -> Items \ {"T_m1", "T_m2"}
                    [] dis.k = "disable_T" /\ dis.b \in Names[b] -> {"U_u1", "U_destroy"}
                    [] OTHER -> Items
 Refs(b) == {Exported[i] : i \in EnabledFor(b)}
@@ -56,7 +60,7 @@ Pats(place) == {NoPat, Subst("ns" \o place \o "_", ""), Subst("", "_" \o place)}
 Init == stage = "choose" /\ pm = NoPat /\ pt = NoPat /\ pi = NoPat /\ pme = NoPat /\ dis = [k |-> "none", b |-> "c"]
 Choose == /\ stage = "choose"
           /\ pm' \in Pats("m") /\ pt' \in Pats("t") /\ pi' \in Pats("i") /\ pme' \in Pats("me")
-          /\ dis' \in {[k |-> "none", b |-> "c"]} \cup {[k |-> kk, b |-> bb] : kk \in {"disable_m2", "disable_T", "rename_T"}, bb \in {"js", "dart", "cpp"}}
+          /\ dis' \in {[k |-> "none", b |-> "c"]} \cup {[k |-> kk, b |-> bb] : kk \in {"disable_m1", "disable_m2", "disable_i", "disable_T", "rename_T"}, bb \in {"js", "dart", "cpp"}}
           /\ stage' = "done"
 Spec == Init /\ [][Choose]_vars
 Done == stage = "done"
@@ -68,6 +72,9 @@ Injective == Done => Cardinality(AllExported) = Cardinality(Items)
 RefsSubset == Done => \A b \in Backend : Refs(b) \subseteq AllExported
 \* renaming or disabling for a backend never changes what the Rust library exports
 ExportIndependentOfBackendAttrs == Done => AllExported = {Exported[i] : i \in Items}
+\* disabling is per item: a disabled method never takes a later method (or the destructor) of its type with it
+DisableIsLocal == Done => \A b \in Backend : /\ (dis.k \in {"disable_m1", "disable_m2", "disable_i"} => {"T_m3", "T_destroy"} \subseteq EnabledFor(b))
+                                             /\ {"U_u1", "U_destroy"} \subseteq EnabledFor(b)
 \* the pattern is applied exactly once: the plain name occurs exactly once inside a substituted symbol
 AppliedOnce == Done => (pme.k = "subst" => Exported.T_m1 = pme.p \o "T_m1" \o pme.q)
 InnermostWins == Done => /\ (pme.k = "none" /\ pi.k = "subst" => Exported.T_m1 = pi.p \o "T_m1" \o pi.q)
